@@ -12,7 +12,7 @@ from vp import val, coqrun, rustrun
 from vp.val import cN, cbool, clist, cpair, copt
 
 OPN = {'ins': 0, 'rem': 1, 'drop': 2, 'mstale': 3, 'dstale': 4, 'mllgr': 5, 'dllgr': 6,
-       'nhv': 7, 'pol': 8, 'reset': 9, 'unreg': 10}
+       'nhv': 7, 'pol': 8, 'reset': 9, 'unreg': 10, 'insl': 11, 'sdef': 12, 'edef': 13}
 
 # ---- fixed configurations (cfg = peers, attrs, vrfs, pols)
 def mk_cfg(k):
@@ -24,15 +24,24 @@ def mk_cfg(k):
     return dict(peers=peers, attrs=attrs, vrfs=vrfs, pols=pols)
 
 def cfg_to_val(c):
-    return [c['peers'], c['attrs'], c['vrfs'], c['pols']]
+    def av(a):
+        a = list(a)
+        if len(a) < 7:
+            a = a + [0, None][len(a) - 5:]
+        return a[:6] + [[] if a[6] is None else [a[6]]]
+    return [c['peers'], [av(a) for a in c['attrs']], c['vrfs'], c['pols']]
 
 def act_coq(a):
     return {0: 'AAccept', 1: 'AReject'}.get(a[0]) or '(ASetNh %s)' % cN(a[1])
 
 def cfg_to_coq(c):
     peers = clist(['(%s, (%s, %s))' % (cN(p), cN(r), cbool(i)) for p, r, i in c['peers']])
-    attrs = clist(['(%s, {| a_pref := %s; a_llgrc := %s; a_nollgr := %s; a_rts := %s |})' %
-                   (cN(t), cN(p), cbool(l), cbool(n), clist([cN(x) for x in r])) for t, p, l, n, r in c['attrs']])
+    def a7(a):
+        a = list(a)
+        return a + [0, None][len(a) - 5:] if len(a) < 7 else a
+    attrs = clist(['(%s, {| a_pref := %s; a_llgrc := %s; a_nollgr := %s; a_rts := %s; a_clen := %s; a_oid := %s |})' %
+                   (cN(t), cN(p), cbool(l), cbool(n), clist([cN(x) for x in r]), cN(cl), copt(None if o is None else cN(o)))
+                   for t, p, l, n, r, cl, o in map(a7, c['attrs'])])
     vrfs = clist(['(%s, %s)' % (cN(i), clist([cN(x) for x in r])) for i, r in c['vrfs']])
     pols = clist([clist(['(%s, %s)' % (cN(p), act_coq(a)) for p, a in pol]) for pol in c['pols']])
     return '{| c_peers := %s; c_attrs := %s; c_vrfs := %s; c_pols := %s |}' % (peers, attrs, vrfs, pols)
@@ -59,6 +68,9 @@ def op_to_val(o):
     if t == 'ins':
         _, peer, sess, (k, i), pid, nh, tok = o
         return [0, peer, sess, k, i, pid, [] if nh is None else [nh_norm(nh)], tok]
+    if t == 'insl':
+        _, peer, sess, (k, i), pid, nh, tok, mx, cnt = o
+        return [11, peer, sess, k, i, pid, [] if nh is None else [nh_norm(nh)], tok, mx, cnt]
     if t == 'rem':
         _, peer, sess, (k, i), pid = o
         return [1, peer, sess, k, i, pid]
@@ -72,13 +84,17 @@ def op_to_coq(o):
     if t == 'ins':
         _, peer, sess, p, pid, nh, tok = o
         return '(Insert %s %s %s %s %s %s)' % (cN(peer), cN(sess), pf(p), cN(pid), nh_coq(nh), cN(tok))
+    if t == 'insl':
+        _, peer, sess, p, pid, nh, tok, mx, cnt = o
+        return '(InsertLim %s %s %s %s %s %s %s %s)' % (cN(peer), cN(sess), pf(p), cN(pid), nh_coq(nh), cN(tok), cN(mx), cN(cnt))
     if t == 'rem':
         _, peer, sess, p, pid = o
         return '(Remove %s %s %s %s)' % (cN(peer), cN(sess), pf(p), cN(pid))
     if t == 'nhv':
         return '(NhValidity %s %s)' % (cN(o[1]), cbool(o[2]))
     name = {'drop': 'DropPeer', 'unreg': 'DropPeer', 'mstale': 'MarkStale', 'dstale': 'DropStale',
-            'mllgr': 'MarkLlgr', 'dllgr': 'DropLlgr', 'pol': 'SetPolicy', 'reset': 'SoftResetIn'}[t]
+            'mllgr': 'MarkLlgr', 'dllgr': 'DropLlgr', 'pol': 'SetPolicy', 'reset': 'SoftResetIn',
+            'sdef': 'StartDef', 'edef': 'EndDef'}[t]
     return '(%s %s)' % (name, cN(o[1]))
 
 # ---- kernel semantics of the request stream (kernel/src/lib.rs Handle::apply and the
@@ -88,7 +104,7 @@ def replay(reqs, fib, ref):
         if r[0] == 0:
             tbl = r[1][0] if r[1] else None
             net = tuple(r[2])
-            if net[0] == 1:
+            if net[0] in (1, 4):
                 continue                       # VPN NLRI in the main table: ignored by Handle::apply
             key = (tbl, net)
             if r[3]:
@@ -107,14 +123,16 @@ def replay(reqs, fib, ref):
 class Prop:
     pid = 'C20'
     props_file = 'Props/C20.v'
-    required_theorems = ['fib_replay_eq_ecmp_of_best', 'vrf_fib_replay_eq_ecmp_of_best', 'nht_refcount_eq_paths', 'kernel_watched_count_is_replay', 'fib_replay_eq_ecmp_of_best_legacy_refuted', 'vrf_fib_replay_eq_ecmp_of_best_legacy_refuted',
-                         'unreachable_nexthop_excluded']
+    required_theorems = ['fib_replay_eq_ecmp_of_best', 'vrf_fib_replay_eq_ecmp_of_best_outside_known', 'vrf_fib_replay_eq_ecmp_of_best_refuted', 'nht_refcount_eq_paths', 'kernel_watched_count_is_replay', 'fib_replay_eq_ecmp_of_best_legacy_refuted', 'vrf_fib_replay_eq_ecmp_of_best_legacy_refuted',
+                         'unreachable_nexthop_excluded', 'insert_race_is_sequential', 'unreachable_nexthop_excluded_early_read_refuted']
     correspondence_name = ('Model/Fib.v svc_run vs kernel/src/lib.rs run_service_loop (harness/hx-kernel, real rtnetlink socket); Model/Fib.v step vs daemon/src/table_manager.rs TableManager (insert_route, remove_route, drop_families, '
                            'unregister_peer, drop_stale_families, mark_llgr_stale, drop_llgr_stale_families, update_nexthop_validity, '
-                           'soft_reset_in) with a capturing kernel::KernelHandle (harness/daemon/table_manager_hx.rs verif_fib_cases)')
+                           'soft_reset_in, insert_route under a prefix limit, start_deferral_families, end_deferral_families) with a capturing kernel::KernelHandle (harness/daemon/table_manager_hx.rs verif_fib_cases)')
     rule = ('a case is a history of <= 28 operations; non-trivial when some FIB request carries >= 2 next hops or a withdrawal follows an '
-            'install; distinct = distinct (configuration, canonical request stream); the thorough tier adds every sequence of <= 3 operations '
-            'over a 16-letter alphabet after a two-insert prefix (4368 cases) and 495 kernel reference-count sequences')
+            'install; distinct = distinct (configuration, canonical request stream); on every run 494 enumerated histories (tie-key steps, flag combinations, '
+            'nht_register matrix, remove / peer-operation / soft-reset / reachability / VRF classes, prefix-limit boundaries, deferral) and every '
+            'register/unregister sequence of length <= 4 precede the random ones; the thorough tier adds every sequence of <= 3 operations '
+            'over a 20-letter alphabet (incl. deferral start/end, a limited insert, an IPv6 prefix) after a two-insert prefix and 495 kernel reference-count sequences')
     exhaustive = {'quick': False, 'thorough': False}
     ops_field = 'ops'           # lib/vp/check.py shrink_case drops operations of a failing history
     trusted_base = [
@@ -128,8 +146,8 @@ class Prop:
         'C20: hash-map iteration order (destinations, VRFs, shards) is not modelled; requests are compared per key (prefix / address) in order',
     ]
     assumptions = [
-        'operations are sequential (the property quantifies over histories); insert_route reading nexthop_invalid before taking the shard lock is a schedule-dependent window not explored',
-        'the kernel handle is installed before the history starts; no family is in restarting-speaker deferral (C11); no prefix limit (C15)',
+        'operations are sequential (the property quantifies over histories); the one concurrent schedule explored is insert_route parked before its shard lock while another thread applies reachability reports (classes insert_race:*, finding C20-4)',
+        'the kernel handle is installed before the history starts; restarting-speaker deferral of a family starts while the family holds no route (it is started at boot, event/mod.rs); the prefix-limit counter is an input of each insert (its bookkeeping is C15)',
         'peer-level operations name every family of the session (IPv4 unicast and VPNv4), as the GR glue does (C10)',
         'VRFs with a kernel table have distinct table ids and distinct VPN prefixes have distinct VRF-local prefixes (one RD)',
     ]
@@ -138,11 +156,20 @@ class Prop:
     def case_to_val(self, c):
         if c.get('kind') == 'ref':
             return c['reqs']
+        if c.get('kind') == 'race':
+            pre, (_, ins, mids) = c['ops'][:-1], c['ops'][-1]
+            return [cfg_to_val(c['cfg']), c['shards'], [op_to_val(o) for o in pre], op_to_val(ins), [op_to_val(m) for m in mids]]
         return [cfg_to_val(c['cfg']), c['shards'], [op_to_val(o) for o in c['ops']]]
 
     def case_to_coq(self, c):
         if c.get('kind') == 'ref':
             return 'run_ref %s' % clist(['(%s %s)' % ('Reg' if r[0] == 1 else 'Unreg', cN(r[1])) for r in c['reqs']])
+        if c.get('kind') == 'race':
+            pre, (_, ins, mids) = c['ops'][:-1], c['ops'][-1]
+            _, peer, sess, p, pid, nh, tok = ins
+            return 'run_race %s %s %s %s %s (%s, %s) %s %s %s %s' % (
+                os.environ.get('VERIF_C20_EARLY_READ', 'false'), cfg_to_coq(c['cfg']), clist([op_to_coq(o) for o in pre]),
+                cN(peer), cN(sess), cN(p[0]), cN(p[1]), cN(pid), nh_coq(nh), cN(tok), clist([op_to_coq(m) for m in mids]))
         return 'run_case %s %s %s' % (os.environ.get('VERIF_C20_VARIANT', 'Fixed'), cfg_to_coq(c['cfg']),
                                       clist([op_to_coq(o) for o in c['ops']]))
 
@@ -156,8 +183,11 @@ class Prop:
         ops = []
         for o in j['ops']:
             o = list(o)
-            if o[0] in ('ins', 'rem'):
+            if o[0] in ('ins', 'rem', 'insl'):
                 o[3] = tuple(o[3])
+            if o[0] == 'race':
+                i = list(o[1]); i[3] = tuple(i[3])
+                o = ['race', tuple(i), [tuple(m) for m in o[2]]]
             ops.append(tuple(o))
         c['ops'] = ops
         return c
@@ -173,16 +203,25 @@ class Prop:
     def gen_ops(self, rng, n, flavour):
         ops = []
         peers = [1, 2, 3]
-        prefixes = [(0, 1), (0, 2), (1, 1), (1, 2)]
+        prefixes = [(0, 1), (0, 2), (1, 1), (1, 2), (3, 1), (4, 2)]
         if flavour in ('plain', 'v6'):
             prefixes = [(0, 1), (0, 1), (0, 2)]
         elif flavour == 'vpn':
-            prefixes = [(1, 1), (1, 1), (1, 2), (0, 1)]
+            prefixes = [(1, 1), (1, 1), (1, 2), (0, 1), (4, 2), (4, 1)] + ([(1, 12)] if rng.random() < 0.25 else [])
         toks_tied = [0, 1, 3] if flavour != 'llgr' else [0, 1, 2, 6]
         live = []       # (peer, sess, prefix, pid) inserted so far
         sess = {1: 0, 2: 0, 3: 0, 0: 0}
+        deferring = []
+        if rng.random() < 0.3:
+            # restarting-speaker deferral: started on empty tables, ended somewhere in the history
+            deferring = rng.sample([0, 1, 3, 4], rng.choice([1, 2, 4]))
+            ops += [('sdef', f) for f in deferring]
         for _ in range(n):
             x = rng.random()
+            if deferring and rng.random() < 0.12:
+                f = deferring.pop()
+                ops.append(('edef', f))
+                continue
             if x < 0.42 or not live:
                 peer = rng.choice(peers + ([0] if rng.random() < 0.15 else []))
                 p = rng.choice(prefixes)
@@ -195,7 +234,11 @@ class Prop:
                 tok = rng.choice(toks_tied) if r < 0.7 else rng.choice([2, 4, 5, 6])
                 if peer == 0:
                     sess[0] = rng.choice([0, 0, 1])       # gRPC-injected or kernel-redistributed pseudo-source
-                ops.append(('ins', peer, sess[peer], p, pid, nh, tok))
+                if rng.random() < 0.12:
+                    mx = rng.choice([0, 1, 2, 3])
+                    ops.append(('insl', peer, sess[peer], p, pid, nh, tok, mx, max(0, mx + rng.choice([-1, 0, 0, 1]))))
+                else:
+                    ops.append(('ins', peer, sess[peer], p, pid, nh, tok))
                 live.append((peer, sess[peer], p, pid))
             elif x < 0.60:
                 peer, s, p, pid = rng.choice(live)
@@ -220,10 +263,172 @@ class Prop:
                 ops.append(('pol', rng.choice([0, 1, 2, 3])))
             else:
                 ops.append(('reset', rng.choice(peers)))
+        ops += [('edef', f) for f in deferring]
         return ops
 
+    # ---- classes enumerated on every run (each case carries its class in 'cls')
+    ECFG = dict(
+        peers=[[1, 1, 0], [2, 2, 0], [3, 3, 1], [4, 1, 0]],      # 3 is iBGP; 4 shares router id 1 with peer 1
+        # tok: pref, llgrc, nollgr, rts, clen, oid
+        attrs=[[10, 2, 0, 0, [1], 0, None], [22, 2, 0, 0, [1], 0, None],       # 22: same content, another Arc
+               [11, 0, 0, 0, [1], 0, None],                                     # higher LOCAL_PREF
+               [12, 1, 0, 0, [1], 0, None],                                     # shorter AS_PATH
+               [13, 3, 0, 0, [1], 0, None],                                     # worse ORIGIN
+               [14, 2, 1, 0, [1], 0, None],                                     # LLGR_STALE community
+               [15, 2, 0, 0, [1], 1, None],                                     # CLUSTER_LIST of one
+               [16, 2, 0, 0, [1], 0, 0], [17, 2, 0, 0, [1], 0, 5],             # ORIGINATOR_ID below / above every router id
+               [18, 2, 0, 1, [1], 0, None],                                     # NO_LLGR
+               [19, 2, 0, 0, [], 0, None], [20, 2, 0, 0, [2], 0, None],
+               [21, 2, 0, 0, [9, 8, 1], 0, None], [23, 2, 0, 0, [1, 2], 0, None],
+               [24, 2, 0, 0, [1], 2, None], [25, 4, 0, 0, [1], 0, None]],      # CLUSTER_LIST of two; ORIGIN incomplete
+        vrfs=[[5, [1]], [6, [2, 3]], [0, [1]], [7, [9, 2, 1]]],
+        pols=[[[2, [1]]], [[2, [2, 1]]], [[2, [2, 3]]], [[2, [2, 101]]], [[1, [1]], [2, [1]], [3, [1]]]])
+
+    def enum_cases(self):
+        E = self.ECFG
+        out = []
+        def add(cls, ops, shards=2):
+            out.append(dict(cfg=E, shards=shards, ops=ops, cls=cls))
+        nh = lambda a: [0, a] if a < 100 else [1, a]
+        ins = lambda peer, p, a, tok, pid=0, sess=0: ('ins', peer, sess, p, pid, None if a is None else (a if isinstance(a, list) else nh(a)), tok)
+        rem = lambda peer, p, pid=0, sess=0: ('rem', peer, sess, p, pid)
+        PF = [(0, 1), (3, 1), (1, 2), (4, 12)]
+        # T: every step of the tie key is in turn the only difference between two paths
+        steps = [('same', 2, 22), ('localpref', 2, 11), ('aspath', 2, 12), ('origin', 2, 13), ('origin2', 2, 25),
+                 ('llgr_comm', 2, 14), ('clen1', 2, 15), ('clen2', 2, 24), ('oid_low', 2, 16), ('oid_high', 2, 17),
+                 ('ibgp', 3, 10), ('same_rid', 4, 10)]
+        for P in PF:
+            for name, peer, tok in steps:
+                add('tie:%s:k%d:fwd' % (name, P[0]), [ins(1, P, 1, 10), ins(peer, P, 2, tok), rem(peer, P), ins(peer, P, 2, tok), rem(1, P)])
+                add('tie:%s:k%d:rev' % (name, P[0]), [ins(peer, P, 2, tok), ins(1, P, 1, 10), rem(1, P), ins(1, P, 3, 10), rem(peer, P)])
+            for name, opn in (('stale', 'mstale'), ('llgr', 'mllgr')):
+                add('tie:%s:k%d' % (name, P[0]), [ins(1, P, 1, 10), ins(2, P, 2, 10), (opn, 2), ins(2, P, 3, 10, 0, 1), (opn, 1), (opn, 2),
+                                                   ('dstale' if opn == 'mstale' else 'dllgr', 1), ('dstale' if opn == 'mstale' else 'dllgr', 2)])
+        # F: filtered / next-hop-invalid / GR-stale / LLGR-stale combinations on one member of a tied set of three
+        flagops = {'filt': [('pol', 1), ('reset', 2)], 'inv': [('nhv', 2, False)], 'stale': [('mstale', 2)], 'llgr': [('mllgr', 2)]}
+        undo = {'filt': [('pol', 0), ('reset', 2)], 'inv': [('nhv', 2, True)], 'stale': [], 'llgr': []}
+        names = sorted(flagops)
+        import itertools
+        for r in (1, 2, 3, 4):
+            for combo in itertools.combinations(names, r):
+                for P in ((0, 1), (1, 2)):
+                    ops = [ins(1, P, 1, 10), ins(2, P, 2, 10), ins(4, P, 3, 10)]
+                    for f in combo:
+                        ops += flagops[f]
+                    ops += [rem(1, P)]
+                    for f in combo:
+                        ops += undo[f]
+                    add('flags:%s:k%d' % ('+'.join(combo), P[0]), ops + [ins(1, P, 1, 10), rem(2, P)])
+        # N: nht_register: source x old next hop x new next hop
+        for sname, (peer, sess) in (('peer', (1, 0)), ('local', (0, 0)), ('kernel', (0, 1))):
+            for oname, old in (('absent', 'absent'), ('none', None), ('a', 1), ('b', 2), ('ll', [2, 101, 1])):
+                for nname, new in (('none', None), ('a', 1), ('v6', 101), ('ll', [2, 101, 2])):
+                    ops = [ins(2, (0, 1), 1, 10)]
+                    if old != 'absent':
+                        ops.append(ins(peer, (0, 1), old, 10, 0, sess))
+                    ops += [ins(peer, (0, 1), new, 22, 0, sess), rem(peer, (0, 1), 0, sess), rem(peer, (0, 1), 0, sess)]
+                    add('nht:%s:old_%s:new_%s' % (sname, oname, nname), ops)
+        # R: remove_route: absent prefix, absent path id, filtered path, best / non-best, last / not last
+        P = (0, 1)
+        add('remove:absent_prefix', [rem(1, P), ins(1, P, 1, 10), rem(1, (0, 2))])
+        add('remove:absent_pid', [ins(1, P, 1, 10), rem(1, P, 1), rem(2, P)])
+        add('remove:filtered', [('pol', 1), ins(2, P, 2, 10), ins(1, P, 1, 10), rem(2, P), rem(1, P)])
+        add('remove:best_not_last', [ins(1, P, 1, 11), ins(2, P, 2, 10), ins(4, P, 3, 10), rem(1, P)])
+        add('remove:nonbest', [ins(1, P, 1, 11), ins(2, P, 2, 10), rem(2, P)])
+        add('remove:addpath', [ins(1, P, 1, 10, 0), ins(1, P, 1, 10, 1), ins(1, P, 2, 10, 2), rem(1, P, 1), rem(1, P, 0), rem(1, P, 2)])
+        # P: peer-level operations on 0 / 1 / 2 / 3 paths sharing a next hop, in 1 / 2 families
+        for opn in ('drop', 'unreg', 'mstale', 'dstale', 'mllgr', 'dllgr', 'reset'):
+            add('peerop:%s:empty_table' % opn, [(opn, 1), ins(1, P, 1, 10)])
+            add('peerop:%s:other_peer' % opn, [ins(2, P, 1, 10), (opn, 1), rem(2, P)])
+            for n in (1, 2, 3):
+                pre = [ins(1, P, 1, 10, pid) for pid in range(n)] + [ins(2, P, 1, 18)]
+                seq = [(opn, 1)]
+                if opn in ('dstale', 'dllgr'):
+                    seq = [('mstale' if opn == 'dstale' else 'mllgr', 1), (opn, 1), (opn, 1)]
+                add('peerop:%s:%d_paths_shared_nh' % (opn, n), pre + seq + [ins(1, P, 1, 10, 0, 1)])
+            add('peerop:%s:four_families' % opn, [ins(1, (0, 1), 1, 18), ins(1, (1, 2), 1, 18), ins(1, (3, 1), 101, 18), ins(1, (4, 2), 101, 18),
+                                                  ins(2, (0, 1), 1, 10), ('mstale', 1) if opn == 'dstale' else ('mllgr', 1) if opn == 'dllgr' else ('pol', 0), (opn, 1)])
+        # S: soft_reset_in with import policies changing the disposition / the next hop
+        for pname, pol in (('reject', 1), ('setnh_same', 2), ('setnh_other', 3), ('setnh_v6', 4)):
+            for oname, old in (('a', 1), ('none', None), ('ll', [2, 101, 1])):
+                add('reset:%s:old_%s' % (pname, oname), [ins(2, P, old, 10), ins(1, P, 3, 10), ('pol', pol), ('reset', 2), ('reset', 2), ('pol', 0), ('reset', 2), rem(2, P)])
+        add('reset:stale_skipped', [ins(2, P, 1, 10), ('mstale', 2), ('pol', 3), ('reset', 2), ('dstale', 2)])
+        add('reset:insert_under_policy', [('pol', 3), ins(2, P, 1, 10), ('pol', 1), ins(2, P, 1, 10), ('pol', 0), ('reset', 2), rem(2, P)])
+        # V: reachability reports: before / after the insert, repeated, for each next-hop form
+        for fname, form, a in (('v4', [0, 1], 1), ('v6', [1, 101], 101), ('ll', [2, 101, 1], 101)):
+            add('nhv:%s:after_insert' % fname, [ins(1, P, form, 10), ins(2, P, 2, 10), ('nhv', a, False), ('nhv', a, False), ('nhv', a, True), ('nhv', a, True)])
+            add('nhv:%s:before_insert' % fname, [('nhv', a, False), ins(1, P, form, 10), ins(2, P, form, 10), ('nhv', a, True), rem(1, P)])
+            add('nhv:%s:no_path' % fname, [('nhv', a, True), ('nhv', a, False), ins(2, P, 2, 10), ('nhv', a, True)])
+            add('nhv:%s:replace_while_unreachable' % fname, [ins(1, P, form, 10), ('nhv', a, False), ins(1, P, 2, 10), ins(1, P, form, 10), ('nhv', a, True)])
+        # VRF: route targets of the best path against the VRFs' import sets, both VPN families
+        for P in ((1, 2), (4, 2)):
+            for tok in (10, 19, 20, 21, 23):
+                add('vrf:rts_tok%d:k%d' % (tok, P[0]), [ins(1, P, 1, tok), ins(2, P, 2, 10), rem(1, P), rem(2, P)])
+            add('vrf:importable_to_not_to_importable:k%d' % P[0], [ins(2, P, 2, 10), ins(1, P, 1, 19, 0), ins(1, P, 1, 20), ins(1, P, 1, 10), rem(1, P)])
+            add('vrf:best_by_originator:k%d' % P[0], [ins(2, P, 2, 20), ins(1, P, 1, 10), ins(4, P, 3, 16), rem(4, P)])
+            # C20-3 (known): two route distinguishers, one inner prefix
+            Q = (P[0], P[1] + 10)
+            add('vrf:two_rds:k%d' % P[0], [ins(1, P, 1, 10), ins(2, Q, 2, 10), rem(2, Q), rem(1, P)])
+            add('vrf:two_rds_one_importable:k%d' % P[0], [ins(1, P, 1, 10), ins(2, Q, 2, 19), rem(2, Q)])
+        # L: the prefix-limit test of Table::insert in the FIB stream: counter below / at / above the limit
+        # (also at the u32 end), for a new prefix / a replacement / another Add-Path id / another peer's path present
+        insl = lambda peer, p, a, tok, mx, cnt, pid=0: ('insl', peer, 0, p, pid, nh(a), tok, mx, cnt)
+        M = 4294967295
+        for P in PF:
+            for mx, cnts in ((0, (0, 1)), (1, (0, 1, 2)), (2, (1, 2, 3)), (M, (M - 1, M))):
+                for cnt in cnts:
+                    tag = 'k%d:max%s:cnt%s' % (P[0], 'M' if mx == M else mx, {M: 'M', M - 1: 'M-1'}.get(cnt, cnt))
+                    add('limit:new:' + tag, [insl(1, P, 1, 10, mx, cnt), rem(1, P), ins(1, P, 1, 10)])
+                    add('limit:replace:' + tag, [ins(1, P, 1, 10), insl(1, P, 2, 22, mx, cnt), rem(1, P)])
+                    add('limit:addpath:' + tag, [ins(1, P, 1, 10), insl(1, P, 2, 22, mx, cnt, 1), rem(1, P, 1), rem(1, P)])
+                    add('limit:other_peer:' + tag, [ins(2, P, 1, 10), insl(1, P, 2, 22, mx, cnt), rem(1, P), rem(2, P)])
+        # D: restarting-speaker deferral (start on an empty family, changes suppressed, end emits every destination)
+        OTHER = {0: (3, 1), 3: (0, 1), 1: (4, 2), 4: (1, 2)}
+        for P in PF:
+            f, O = P[0], OTHER[P[0]]
+            sd, ed = ('sdef', f), ('edef', f)
+            add('defer:insert_end:k%d' % f, [sd, ins(1, P, 1, 10), ins(2, P, 2, 22), ed, rem(1, P), rem(2, P)])
+            add('defer:insert_remove_end:k%d' % f, [sd, ins(1, P, 1, 10), rem(1, P), ed, ins(1, P, 1, 10)])
+            add('defer:replace_end:k%d' % f, [sd, ins(1, P, 1, 10), ins(1, P, 2, 22), ins(1, P, None, 10), ed])
+            add('defer:other_family:k%d' % f, [sd, ins(1, O, 1, 10), ins(1, P, 1, 10), rem(1, O), ed, ('edef', O[0])])
+            add('defer:all_filtered_at_end:k%d' % f, [('pol', 1), sd, ins(2, P, 2, 10), ins(2, (P[0], P[1] + (1 if P[1] < 10 else -10)), 2, 10), ed, ('pol', 0), ('reset', 2)])
+            add('defer:end_without_start:k%d' % f, [ins(1, P, 1, 10), ed, rem(1, P), ed])
+            add('defer:start_twice:k%d' % f, [sd, sd, ins(1, P, 1, 10), ed, ins(2, P, 2, 10), ed])
+            add('defer:restart:k%d' % f, [sd, ins(1, P, 1, 10), rem(1, P), ed, sd, ins(1, P, 1, 10), ed])
+            add('defer:purges:k%d' % f, [sd, ins(1, P, 1, 10), ins(2, P, 2, 18), ins(4, P, 3, 10), ('mstale', 2), ('dstale', 2), ('nhv', 1, False),
+                                         ('mllgr', 4), ('drop', 1), ed, ('nhv', 1, True), ('dllgr', 4)])
+            add('defer:reset:k%d' % f, [sd, ins(2, P, 1, 10), ('pol', 3), ('reset', 2), ed, ('pol', 0), ('reset', 2)])
+            add('defer:limit:k%d' % f, [sd, insl(1, P, 1, 10, 1, 1), insl(2, P, 2, 10, 1, 0), ed])
+            add('defer:all_families:k%d' % f, [('sdef', 0), ('sdef', 1), ('sdef', 3), ('sdef', 4), ins(1, P, 1, 10), ins(2, O, 2, 10), ed, ('edef', O[0])])
+        return out
+
+    def race_cases(self):
+        """X: insert_route reaching its shard lock after reachability reports issued by another thread
+        have been applied: report kinds x next-hop forms x what the table held before"""
+        E = self.ECFG
+        out = []
+        P = (0, 1)
+        forms = (('v4', [0, 1], 1), ('v6', [1, 101], 101), ('ll', [2, 101, 1], 101))
+        for fname, form, a in forms:
+            other = 2 if a == 1 else 102
+            pres = (('empty', []), ('other_path_same_nh', [('ins', 2, 0, P, 0, form, 10)]),
+                    ('already_unreachable', [('nhv', a, False)]), ('replaces_own_path', [('ins', 1, 0, P, 0, [0, 3], 10)]))
+            midss = (('none', []), ('down', [('nhv', a, False)]), ('up', [('nhv', a, True)]), ('down_up', [('nhv', a, False), ('nhv', a, True)]),
+                     ('up_down', [('nhv', a, True), ('nhv', a, False)]), ('other_down', [('nhv', other, False)]))
+            for pname, pre in pres:
+                for mname, mids in midss:
+                    out.append(dict(kind='race', cfg=E, shards=1 if mname != 'down' else 2,
+                                    ops=list(pre) + [('race', ('ins', 1, 0, P, 0, form, 10), list(mids))],
+                                    cls='insert_race:%s:%s:%s' % (fname, pname, mname)))
+        return out
+
     def gen_cases(self, rng, tier):
-        cases = []
+        cases = self.enum_cases() + self.race_cases()
+        # K: every request sequence of length <= 4 over register/unregister of two addresses
+        import itertools
+        for d in (1, 2, 3, 4):
+            for seq in itertools.product([[1, 1], [2, 1], [1, 2], [2, 2]], repeat=d):
+                cases.append(dict(kind='ref', reqs=[list(x) for x in seq], cls='kref:len%d' % d))
         n = 1200 if tier == 'quick' else 12000
         for k in range(n):
             flavour = ['mixed', 'plain', 'vpn', 'llgr', 'v6', 'mixed'][k % 6]
@@ -241,9 +446,13 @@ class Prop:
             al = [('ins', 1, 0, P1, 0, 1, 0), ('ins', 2, 0, P1, 0, 2, 1), ('ins', 3, 0, P1, 0, 1, 5), ('ins', 2, 0, P1, 0, None, 0),
                   ('ins', 2, 0, P1, 0, [2, 101, 1], 1), ('nhv', 101, False),
                   ('rem', 1, 0, P1, 0), ('rem', 2, 0, P1, 0), ('nhv', 1, False), ('nhv', 1, True), ('drop', 2),
-                  ('mstale', 1), ('dstale', 1), ('mllgr', 2), ('pol', 3), ('reset', 2)]
+                  ('mstale', 1), ('dstale', 1), ('mllgr', 2), ('pol', 3), ('reset', 2),
+                  ('sdef', 3), ('edef', 3), ('ins', 1, 0, (3, 1), 0, [1, 101], 0), ('insl', 2, 0, P1, 0, 2, 1, 1, 1)]
             for d in (1, 2, 3):
                 for seq in itertools.product(al, repeat=d):
+                    # a deferral starts on an empty family (assumption): not after the IPv6 insert
+                    if any(o[0] == 'sdef' and any(x[0] == 'ins' and x[3][0] == 3 for x in seq[:i]) for i, o in enumerate(seq)):
+                        continue
                     cases.append(dict(cfg=mk_cfg(0), shards=2,
                                       ops=[('ins', 1, 0, P1, 0, 1, 0), ('ins', 3, 0, P1, 1, 3, 3)] + list(seq)))
         # request sequences for the reference counts of the kernel service task
@@ -257,7 +466,8 @@ class Prop:
 
     # ---- running
     def run_impl(self, cases, tier):
-        hist = [k for k, c in enumerate(cases) if c.get('kind') != 'ref']
+        hist = [k for k, c in enumerate(cases) if c.get('kind') not in ('ref', 'race')]
+        races = [k for k, c in enumerate(cases) if c.get('kind') == 'race']
         refs = [k for k, c in enumerate(cases) if c.get('kind') == 'ref']
         out = [None] * len(cases)
         a, err = rustrun.daemon_test('C20', 'table_manager::verif_hx::verif_fib_cases', [self.case_to_val(cases[k]) for k in hist])
@@ -265,6 +475,12 @@ class Prop:
             return None, err
         for k, o in zip(hist, a):
             out[k] = o
+        if races:
+            r, err = rustrun.daemon_test('C20r', 'table_manager::verif_hx::verif_fib_race_cases', [self.case_to_val(cases[k]) for k in races])
+            if r is None:
+                return None, err
+            for k, o in zip(races, r):
+                out[k] = o
         if refs:
             b, err = rustrun.crate_bin('C20k', 'hx-kernel', '', [self.case_to_val(cases[k]) for k in refs])
             if b is None:
@@ -281,10 +497,19 @@ class Prop:
         if obs == [-1] or case.get('kind') == 'ref':
             return obs
         out = []
+        # VRF-local prefixes fed by two VPN prefixes (known class C20-3): within one operation their
+        # requests come in hash-map order, which is not modelled
+        seen, shared = {}, set()
+        for o in case['ops']:
+            if o[0] in ('ins', 'insl') and o[3][0] in (1, 4):
+                lk = (o[3][0] + 1, o[3][1] % 10)
+                seen.setdefault(lk, set()).add(tuple(o[3]))
+                if len(seen[lk]) > 1:
+                    shared.add(lk)
         for reqs, view in obs:
             def key(r):
                 if r[0] == 0:
-                    return (0, r[1][0] if r[1] else -1, r[2][0], r[2][1], 0)
+                    return (0, r[1][0] if r[1] else -1, r[2][0], r[2][1], tuple(r[3]) if (r[1] and tuple(r[2]) in shared) else 0)
                 return (1, r[1], 0, 0, r[0])        # per address: registrations before unregistrations
             rq = sorted(reqs, key=key)              # stable: per (table, prefix) the order of the Applies is kept
             out.append([rq, sorted(view, key=lambda d: d[0])])
@@ -311,14 +536,48 @@ class Prop:
         cfg = c['cfg']
         pinfo = {p: (r, i) for p, r, i in cfg['peers']}
         pinfo[0] = (0, 1)
-        ainfo = {t: (p, l, n, r) for t, p, l, n, r in cfg['attrs']}
+        ainfo = {}
+        for a in cfg['attrs']:
+            a = list(a) + [0, None][len(a) - 5:] if len(a) < 7 else list(a)
+            ainfo[a[0]] = tuple(a[1:])          # pref, llgrc, nollgr, rts, clen, oid
         fib, ref = {}, {}
         unreach = set()
+        vpn_seen = {}                           # VRF-local prefix -> VPN prefixes inserted so far
+        frozen = {}                             # deferring family -> FIB contents of its keys when the deferral started
+        fam_of = lambda key: key[1][0] if key[0] is None else key[1][0] - 1
+        prev_view = []
         for k, (o, (reqs, view)) in enumerate(zip(c['ops'], obs)):
+            if o[0] == 'race':
+                # an insert that reached its shard lock after the reports [o[2]] were applied completely:
+                # judged as the history ... reports, insert
+                for m in o[2]:
+                    (unreach.discard if m[2] else unreach.add)(m[1])
+                o = o[1]
             if o[0] == 'nhv':
                 (unreach.discard if o[2] else unreach.add)(o[1])
+            if o[0] in ('ins', 'insl') and o[3][0] in (1, 4):
+                vpn_seen.setdefault((o[3][0] + 1, o[3][1] % 10), set()).add(tuple(o[3]))
+            if o[0] == 'sdef' and o[1] not in frozen:
+                frozen[o[1]] = {key: sorted(set(v)) for key, v in fib.items() if fam_of(key) == o[1]}
+            if o[0] == 'edef':
+                frozen.pop(o[1], None)
+            if o[0] == 'insl':
+                # a peer's first path for a prefix is refused when its counter has reached the limit; every
+                # other insert is stored
+                pv = {tuple(n): a for n, a, _ in prev_view}
+                nv = {tuple(n): a for n, a, _ in view}
+                had = any(x[0] == o[1] for x in pv.get(tuple(o[3]), []))
+                refused = (not had) and o[8] >= o[7]
+                has = any(x[0] == o[1] and x[2] == o[4] for x in nv.get(tuple(o[3]), []))
+                if refused and (sorted(map(json.dumps, prev_view)) != sorted(map(json.dumps, view)) or reqs):
+                    return 'step %d: insert refused by the prefix limit (%d >= %d) changed the RIB or issued requests %s' % (k, o[8], o[7], reqs)
+                if not refused and not has:
+                    return 'step %d: insert within the prefix limit (counter %d, limit %d, prefix %s for the peer) was not stored' % (
+                        k, o[8], o[7], 'known' if had else 'new')
+            prev_view = view
             replay(reqs, fib, ref)
             want_fib = {}
+            vrf_want = {}                       # (table, local prefix) -> list of (vpn prefix, importable, nhs)
             cnt = {}
             for net, allp, el in view:
                 net = tuple(net)
@@ -333,34 +592,59 @@ class Prop:
                 if not el:
                     continue
                 def skey(e):
+                    # the decision steps before the router-id step, in order
                     peer, sess, nh, tok, stale, llgr = e
-                    return (1 if (llgr or ainfo[tok][1]) else 0, ainfo[tok][0], pinfo.get(peer, (peer, 0))[1], stale)
+                    a = ainfo[tok]
+                    return (1 if (llgr or a[1]) else 0, a[0], pinfo.get(peer, (peer, 0))[1], stale, a[4])
                 m = min(skey(e) for e in el)
                 ecmp = [e for e in el if skey(e) == m]
                 nhs = sorted(set(e[2][0][1] for e in ecmp if e[2]))
-                if net[0] == 0:
+                if net[0] in (0, 3):
                     want_fib[(None, net)] = nhs
                 else:
-                    # the best path: minimal under the full order; ties on the router id as well are left to the implementation
-                    fk = lambda e: skey(e) + (pinfo.get(e[0], (e[0], 0))[0],)
+                    # the best path: minimal under the full order (ORIGINATOR_ID, else router id, last);
+                    # full ties are left to the implementation
+                    def fk(e):
+                        oid = ainfo[e[3]][5]
+                        return skey(e) + (oid if oid is not None else pinfo.get(e[0], (e[0], 0))[0],)
                     mf = min(fk(e) for e in el)
                     bests = [e for e in el if fk(e) == mf]
                     for tid, imp in cfg['vrfs']:
                         if tid == 0:
                             continue
                         oks = set(bool(set(ainfo[b[3]][3]) & set(imp)) for b in bests)
-                        if len(oks) == 1:
-                            want_fib[(tid, (2, net[1]))] = nhs if oks.pop() else []
-                        else:
-                            want_fib[(tid, (2, net[1]))] = None
-            # (1) replayed FIB = ECMP next-hop set, for every prefix and VRF table
+                        vrf_want.setdefault((tid, (net[0] + 1, net[1] % 10)), []).append(
+                            (net, oks.pop() if len(oks) == 1 else None, nhs))
+            # (1) replayed FIB = ECMP next-hop set, for every prefix
+            for key in set(fib) | set(want_fib) | set(vrf_want):
+                if fam_of(key) in frozen:
+                    got = sorted(set(fib.get(key, [])))
+                    if got != frozen[fam_of(key)].get(key, []):
+                        return 'step %d: FIB table %s prefix %s changed from %s to %s while its family is in deferral' % (
+                            k, key[0], list(key[1]), frozen[fam_of(key)].get(key, []), got)
             for key in set(fib) | set(want_fib):
-                w = want_fib.get(key, [])
-                if w is None:
+                if key[0] is not None or fam_of(key) in frozen:
                     continue
+                w = want_fib.get(key, [])
                 got = sorted(set(fib.get(key, [])))
                 if got != w:
                     return 'step %d: FIB table %s prefix %s holds next hops %s, the best path and its ties have %s' % (k, key[0], list(key[1]), got, w)
+            # (1b) ... and in every VRF table: what each importable VPN prefix demands, nothing otherwise
+            for key in set(x for x in fib if x[0] is not None) | set(vrf_want):
+                if fam_of(key) in frozen:
+                    continue
+                got = sorted(set(fib.get(key, [])))
+                demands = vrf_want.get(key, [])
+                shared = ' [shared VRF-local prefix: %s]' % sorted(vpn_seen.get(key[1], [])) if len(vpn_seen.get(key[1], [])) > 1 else ''
+                if any(ok is None for _, ok, _ in demands):
+                    continue
+                imp_d = [(n, nh) for n, ok, nh in demands if ok]
+                for n, nh in imp_d:
+                    if got != nh:
+                        return 'step %d: FIB table %s prefix %s holds next hops %s, the best path of %s is importable and it and its ties have %s%s' % (
+                            k, key[0], list(key[1]), got, list(n), nh, shared)
+                if not imp_d and got:
+                    return 'step %d: FIB table %s prefix %s holds next hops %s, no VPN prefix has an importable best path%s' % (k, key[0], list(key[1]), got, shared)
             # (2) outstanding registrations = peer-learned paths using the address
             for a in set(ref) | set(cnt):
                 if ref.get(a, 0) != cnt.get(a, 0):
@@ -368,6 +652,10 @@ class Prop:
         return None
 
     def in_known_class(self, kf, c, obs, why):
+        if kf['id'] == 'C20-3':
+            # the class: the history has inserted two VPN prefixes that differ only in the route
+            # distinguisher (same family, same inner prefix), and the failing VRF entry is theirs
+            return '[shared VRF-local prefix' in (why or '')
         return False
 
     def nontrivial_key(self, c, obs):
@@ -392,10 +680,15 @@ class Prop:
 
     def classify(self, c, obs):
         if c.get('kind') == 'ref':
-            return ['kernel_refcount_sequence']
+            return ['kernel_refcount_sequence'] + (['enum_' + c['cls']] if c.get('cls') else [])
         tags = ['len_%s' % ('1-4' if len(c['ops']) <= 4 else '5-12' if len(c['ops']) <= 12 else '13+'), 'shards_%d' % c['shards']]
         for o in c['ops']:
             tags.append('op_' + o[0])
+            if o[0] in ('ins', 'rem', 'insl'):
+                tags.append('prefix_kind_%d' % o[3][0])
+        if c.get('cls'):
+            tags.append('enum_' + c['cls'])
+            tags.append('enumclass_' + c['cls'].split(':')[0])
         if obs != [-1]:
             if any(r[0] == 0 and len(r[3]) >= 2 for reqs, _ in obs for r in reqs): tags.append('ecmp_install')
             if any(r[0] == 0 and r[1] for reqs, _ in obs for r in reqs): tags.append('vrf_request')
